@@ -29,11 +29,13 @@ class ParameterConstraint(FileIOMixin, object):
         :return: the additional number of degrees of freedom introduced by this constraint.
         """
 
-    def _get_base_class(self):
+    @classmethod
+    def _get_base_class(cls):
         return ParameterConstraint
 
-    def _get_object_type_name(self):
-        return "parameter_constraint"
+    @classmethod
+    def _get_object_type_name(cls):
+        return "constraint"
 
     def cost(self, parameter_values):
         """
